@@ -1,0 +1,10 @@
+//go:build verif
+
+package common
+
+/*@
+// SafeAdd: the sum, and whether it needs more than 256 bits (math.MaxBitLen)
+func SafeAdd
+    ensures sum: res != nil && *res == a + b
+    ensures overflow: overflow == (iabs(a + b) >= 115792089237316195423570985008687907853269984665640564039457584007913129639936)
+@*/
